@@ -112,10 +112,24 @@ def strip(e):
 
 
 def local_name(e):
+    """plain variable name of a local path expression (the unique binding id is dropped)"""
+    e = strip(e)
+    if e and e.get("k") == "path" and e["res"].startswith("local:"):
+        return e["res"][6:].split("#", 1)[0]
+    return None
+
+
+def local_key(e):
+    """unique key `name#bindingid` of a local path expression (distinguishes shadowed bindings)"""
     e = strip(e)
     if e and e.get("k") == "path" and e["res"].startswith("local:"):
         return e["res"][6:]
     return None
+
+
+def bind_key(p):
+    """unique key of a binding pattern, matching local_key of its uses"""
+    return "%s#%s" % (p["name"], p.get("id", ""))
 
 
 def short(path):
@@ -188,7 +202,7 @@ def show(e, depth=0, maxdepth=12):
     if k == "path":
         r = e["res"]
         kind, _, p = r.partition(":")
-        return p if kind == "local" else short(p)
+        return p.split("#", 1)[0] if kind == "local" else short(p)
     if k == "lit":
         return lit_str(e["v"])
     if k == "bin":
@@ -331,6 +345,38 @@ def pat_binds(p, out=None):
     return out
 
 
+def pat_bind_keys(p, out=None):
+    """unique keys (name#id) bound by a pattern"""
+    if out is None:
+        out = []
+    if p is None:
+        return out
+    k = p["k"]
+    if k == "bind":
+        out.append(bind_key(p))
+        pat_bind_keys(p["sub"], out)
+    elif k == "variant":
+        if "fields" in p:
+            for v in p["fields"].values():
+                pat_bind_keys(v, out)
+        else:
+            for s in p["sub"]:
+                pat_bind_keys(s, out)
+    elif k == "tuple":
+        for s in p["sub"]:
+            pat_bind_keys(s, out)
+    elif k == "or":
+        for a in p["alts"]:
+            pat_bind_keys(a, out)
+    elif k == "ref":
+        pat_bind_keys(p["sub"], out)
+    elif k == "slice":
+        for s in p["before"] + p["after"]:
+            pat_bind_keys(s, out)
+        pat_bind_keys(p["mid"], out)
+    return out
+
+
 def matches_on(e, ty_pred):
     """all `match` nodes (source Normal) in e whose scrutinee type satisfies ty_pred"""
     return [x for x in walk(e) if x.get("k") == "match" and x.get("src") == "Normal" and ty_pred(x["ty"])]
@@ -347,7 +393,7 @@ def arm_rows(m):
 
 def uses_local(e, name):
     for x in walk(e):
-        if x.get("k") == "path" and x["res"] == "local:" + name:
+        if x.get("k") == "path" and x["res"].startswith("local:") and x["res"][6:].split("#", 1)[0] == name:
             return True
     return False
 
